@@ -84,6 +84,11 @@ func (g *gen) scanEffects(blocks map[*ssa.BasicBlock]bool) *effects {
 	for b := range blocks {
 		for _, in := range b.Instrs {
 			switch x := in.(type) {
+			case *ssa.MapUpdate:
+				if mt, ok := x.Map.Type().Underlying().(*types.Map); ok && g.mapModelled(mt) {
+					vn, pn := mapHeapNames(mt)
+					ef.strong[vn], ef.strong[pn] = true, true
+				}
 			case *ssa.Store:
 				if root := addrRoot(x.Addr); root != nil {
 					if al, ok := root.(*ssa.Alloc); ok && al.Heap && blocks[al.Block()] {
